@@ -853,6 +853,35 @@ example :
     (run false sched (init prog)).rpc = .returned ∧ (run false sched (init prog)).body = [.t408] ∧
     (run false sched (init prog)).timedOut = true := by decide
 
+
+/-- what the driver computes for a harness case (`fair`, the handler-first / request-first
+    scheduler) is the run of *a* schedule — so every theorem above that quantifies over schedules
+    applies to it -/
+theorem fair_is_a_schedule (waitH hFirst : Bool) (n : Nat) (s : St) :
+    ∃ sched : List Tok, fair waitH hFirst n s = run waitH sched s := by
+  induction n generalizing s with
+  | zero => exact ⟨[], rfl⟩
+  | succ n ih =>
+    cases hFirst with
+    | true =>
+      simp only [fair, if_true]
+      by_cases ha : (stepH s != s) = true
+      · obtain ⟨sched, h⟩ := ih (stepH s)
+        exact ⟨.h :: sched, by simp only [ha, if_true]; exact h⟩
+      · by_cases hb : (stepR waitH true s != s) = true
+        · obtain ⟨sched, h⟩ := ih (stepR waitH true s)
+          exact ⟨.rd :: sched, by simp only [ha, hb, if_true]; exact h⟩
+        · exact ⟨[], by simp only [ha, hb]; rfl⟩
+    | false =>
+      simp only [fair, Bool.false_eq_true, if_false]
+      by_cases ha : (stepR waitH true s != s) = true
+      · obtain ⟨sched, h⟩ := ih (stepR waitH true s)
+        exact ⟨.rd :: sched, by simp only [ha, if_true]; exact h⟩
+      · by_cases hb : (stepH s != s) = true
+        · obtain ⟨sched, h⟩ := ih (stepH s)
+          exact ⟨.h :: sched, by simp only [ha, hb, if_true]; exact h⟩
+        · exact ⟨[], by simp only [ha, hb]; rfl⟩
+
 end TimeoutMw
 
 end Rivaas.C10
